@@ -266,6 +266,11 @@ def check_suspension(ctx, f, s_p, qmap, admissibility_only=False):
                     rdefs = [n for n in own_nodes(f.node) if isinstance(n, ast.Assign) and any(norm.is_name(t, rhs) for t in n.targets)]
                     if rhs == f"len({qry})" or (len(rdefs) == 1 and norm.U(rdefs[0].value) == f"len({qry})"):
                         cnt = x[2]
+                        if cnt == f"len({L})":
+                            # the number selected so far is the length of the selection list itself
+                            linit = [n for n in own_nodes(f.node) if isinstance(n, ast.Assign) and any(norm.is_name(t, L) for t in n.targets)]
+                            bound = len(linit) == 1 and isinstance(linit[0].value, ast.List) and not linit[0].value.elts
+                            continue
                         incs = [n for n in own_nodes(f.node) if isinstance(n, ast.AugAssign) and norm.is_name(n.target, cnt) and isinstance(n.op, ast.Add)
                                 and isinstance(n.value, ast.Constant) and n.value.value == 1 and any(n is s for s in poolmod.block_of(poolmod.stmt_of(a)))]
                         inits = [n for n in own_nodes(f.node) if isinstance(n, ast.Assign) and any(norm.is_name(t, cnt) for t in n.targets)]
@@ -366,7 +371,7 @@ def _container_source(f, g, at, cv: str, s_p: str) -> bool:
             continue
         lc = idef[0].value
         iv = lc.generators[0].target.id if isinstance(lc.generators[0].target, ast.Name) else "?"
-        if not (norm.U(lc.elt) == f"iter({s_p}.executor.pools[{iv}].active_containers)" and norm.U(lc.generators[0].iter) == f"range({s_p}.executor.num_pools)"):
+        if not (norm.U(lc.elt) == f"iter({s_p}.executor.pools[{iv}].active_containers)" and norm.U(norm.subst(lc.generators[0].iter, single_defs(f))) == f"range({s_p}.executor.num_pools)"):
             ok = False
     return ok
 
